@@ -38,7 +38,24 @@ def build(tier, seed):
         kern.assumptions = ['names are non-empty ASCII over [a _ @ 7 $]; the platform decorates as the x86 table says (cdecl _name; stdcall _name@digits; fastcall @name@digits)']
         kern.bounds = ['name lengths <= 3 (canonical, original, link), <= 7 / 5 (mangled); unwind 10']
         return [kern]
+    def abi():
+        fun = rd('ir/function.rs')
+        get_abi = extract(fun, r'^fn get_abi\(cc: CXCallingConv\) -> ClangAbi \{', what='get_abi')
+        abi_fn = extract(fun, r'^    pub\(crate\) fn abi\(', what='FunctionSig::abi').replace('crate::codegen::error::', 'crate_codegen_error::')
+        abi_enum = extract(fun, r'^pub enum Abi \{', what='enum Abi')
+        h = open(os.path.join(G, 'harness', 'c04_abi.rs')).read().replace('/*ABI_ENUM*/', abi_enum).replace('/*GET_ABI*/', get_abi).replace('/*ABI_FN*/', abi_fn)
+        kk = Kernel(name='abi')
+        kk.files = {'src/lib.rs': h}
+        kk.harnesses = [H('calling_conventions_map_to_the_abi_of_the_same_name', desc='get_abi over every u32 calling-convention code', sample='any CXCallingConv'),
+                        H('override_precedence_and_feature_gate', timeout=900, desc='FunctionSig::abi: <=2 --override-abi entries, lookup by parameter name or own name, any clang ABI, any feature flags, variadic or not', sample={'overrides': '<=2', 'features': '2^4'})]
+        kk.encoded = [enc('ir/function.rs', 'fn get_abi', get_abi), enc('ir/function.rs', 'FunctionSig::abi', abi_fn), enc('ir/function.rs', 'enum Abi', abi_enum)]
+        kk.stubs = ['clang_sys::CXCallingConv_*: environment table of distinct codes', 'RegexSet::matches: symbolic answer per looked-up name', 'RustFeatures: the four ABI flags', 'FunctionSig: name, abi, variadic']
+        kk.bounds = ['all u32 codes; <= 2 overrides']
+        return kk
+    ks = []
     try:
-        return k()
+        ks += k()
     except SliceError as e:
-        return [Kernel(name='link_name', error='slice-failed: %s' % e)]
+        ks.append(Kernel(name='link_name', error='slice-failed: %s' % e))
+    ks.append(kernel_or_error('abi', abi))
+    return ks
